@@ -55,7 +55,7 @@ def base_world(rw, tier, comarket_prob=0.35, hours_choices=None):
     path = price_path(rw, n, token)
     dec = 18 if token == "ETH" else 8
     world = {
-        "start": str(start), "n": n, "interval": interval, "tokens": {token: dec}, "assets": {token: "100"},
+        "start": str(start), "n": n, "interval": interval, "tokens": {token: dec}, "assets": {token: "1000"},
         "quote": "USD", "prices": {token: [format(x, ".2f") for x in path]}, "markets": [],
     }
     return world, token, comarket, path
@@ -84,30 +84,41 @@ def _phase(rp):
 
 
 def gen_trade_args(rp, token, is_buy, n_ins):
-    step_small = ["1", "2", "3", "2.5", "0.4", "7", "0.6"] if token == "ETH" else ["0.1", "0.3", "1", "0.25", "2.5", "0.04", "0.06"]
+    small = ["1", "2", "3", "7", "2.5", "1.4", "12"] if token == "ETH" else ["0.1", "0.3", "1", "0.25", "2.5", "0.14", "4"]
+    dust = ["0.4", "0.6", "0.01"] if token == "ETH" else ["0.04", "0.06", "0.001"]
     mode = rp.choice(["market"] * 9 + ["token"] * 5 + ["usd"] * 2 + ["cap"] * 3 + ["token+cap"])
+    limit = mode in ("token", "usd", "token+cap")
     a = {"mode": mode}
+    j = rp.choice([0, 0, 0, 1, 1, 2, 3, 5])
     r = rp.random()
     if is_buy:
         a["inst"] = {"i": rp.randint(0, n_ins - 1)}
-        if r < 0.3:
-            a["amount"] = {"abs": rp.choice(step_small)}
+        if limit:
+            a["amount"] = {"level": j, "x": rp.choice(["1", "1", "0.5", "0.3", "0.1", "0.7", "0.2", "1.5"])} if r < 0.7 else {"abs": rp.choice(small)}
         elif r < 0.5:
-            a["amount"] = {"level": rp.randint(0, 3), "x": rp.choice(["1", "1", "0.5", "0.3", "1.5"])}
+            a["amount"] = {"abs": rp.choice(small)}
+        elif r < 0.62:
+            a["amount"] = {"level": rp.choice([0, 0, 1, 2]), "x": "1"}
+        elif r < 0.93:
+            a["amount"] = {"depth": rp.choice(["0.02", "0.05", "0.1", "0.2", "0.3", "0.6", "1"])}
         else:
-            a["amount"] = {"depth": rp.choice(["0.1", "0.3", "0.5", "0.8", "1", "1", "1.2", "3"])}
+            a["amount"] = rp.choice([{"depth": "1.2"}, {"abs": rp.choice(dust)}])
     else:
-        a["inst"] = {"held": rp.randint(0, 5)} if rp.random() < 0.9 else {"i": rp.randint(0, n_ins - 1)}
-        if r < 0.6:
-            a["amount"] = {"holding": rp.choice(["0.5", "1", "1", "0.3", "0.3", "1.5", "2"]), "else": rp.choice(step_small)}
-        elif r < 0.8:
-            a["amount"] = {"abs": rp.choice(step_small)}
+        a["inst"] = {"held": rp.randint(0, 5)}
+        if r < 0.75:
+            a["amount"] = {"holding": rp.choice(["0.5", "1", "1", "0.3"]), "else": rp.choice(small)}
+            if limit:
+                a["amount"]["max_level"] = j
+            else:
+                a["amount"]["max_depth"] = "1"
+        elif r < 0.85:
+            a["amount"] = {"holding": rp.choice(["1.5", "2", "10"]), "else": rp.choice(small)}
         else:
-            a["amount"] = {"level": rp.randint(0, 2), "x": rp.choice(["1", "0.5"])}
-    if mode in ("token", "usd", "token+cap"):
-        a["px"] = {"level": rp.randint(0, 4), "mul": rp.choice(["1", "1", "1", "1.0004", "0.9996", "1.003", "0.997"])}
+            a["amount"] = {"abs": rp.choice(small + dust[:1])}
+    if limit:
+        a["px"] = {"level": j, "mul": rp.choice(["1"] * 8 + ["1.0004", "0.9996", "1.0004", "0.9996", "1.003", "0.997"])}
     if mode in ("cap", "token+cap"):
-        a["k"] = rp.choice(["1", "1.01", "1.05", "1.1", "1.3", "2", "5"])
+        a["k"] = rp.choice(["1", "1.01", "1.05", "1.1", "1.3", "2", "5", "5"])
     if rp.random() < 0.15:
         a["as_float"] = True
     return a
@@ -146,24 +157,27 @@ def generate(seed: int, tier: str = "quick") -> dict:
     closed = [i for i, _t, o in bars if not o]
     n_ins = len(mw["instruments"])
     program = []
-    poor = rp.random() < 0.25
+    poor = rp.random() < 0.12
     dep = {"abs": rp.choice(["0.02", "0.1", "0.5"])} if poor else {"f": f"wallet:{token}", "x": rp.choice(["0.3", "0.5", "0.9"])}
     program.append({"bar": -1, "phase": "initialize", "op": "deribit.deposit", "m": "drb0", "a": {"amount": dep}})
     n_ops = rp.randint(5, 30)
     main_bar = rp.choice(opens)
+    warm = rp.choice([1, 2, 3, 4])
     for _ in range(n_ops):
         r = rp.random()
-        if r < 0.6:
+        if _ < warm:
+            bar = min(opens)
+        elif r < 0.6:
             bar = main_bar
         elif r < 0.9 or not closed:
             bar = rp.choice(opens)
         else:
             bar = rp.choice(closed)
             faults.append({"kind": "closed_market", "bar": bar})
-        phase = _phase(rp)
+        phase = _phase(rp) if _ >= warm else "before_bar"
         if bar == 0 and rp.random() < 0.1:
             bar, phase = -1, "initialize"
-        k = rp.random()
+        k = rp.random() if _ >= warm else 0.0  # the first few orders are buys: later sells have something to sell
         if k < 0.45:
             o = {"op": "deribit.buy", "a": gen_trade_args(rp, token, True, n_ins)}
         elif k < 0.75:
@@ -223,6 +237,12 @@ def cause_of(outcome):
         op = msg.split("for ")[1].split(":")[0] if "for " in msg else "?"
         return f"TypeError({op})"
     return exc or "other"
+
+
+OPTION_MARKET_FRAMES = {
+    "market.py:get_market_balance", "market.py:buy", "market.py:sell", "market.py:check_transaction", "market.py:_deduct_order_amount",
+    "market.py:set_market_status", "market.py:get_trade_fee", "helper.py:get_new_order_list", "helper.py:round_decimal",
+}
 
 
 class TradeModel:
@@ -647,9 +667,9 @@ class BookOracle(Oracle):
                 sim.violate(self.oid + ".equity", "bar_end:open_bar", bar=bar, got=got, want=_s(want))
             sim.count("probe:equity_checked_at_bar_end")
         if sim.crash is not None:
-            where = "/".join(sim.crash_where[-1:])
-            if "market.py" in where and type(sim.crash).__name__ != "HarnessError":
-                sim.violate(self.oid + ".crash", f"bar_loop:{type(sim.crash).__name__}@{where}", msg=str(sim.crash)[:200])
+            inside = [w for w in sim.crash_where[-3:] if w in OPTION_MARKET_FRAMES]
+            if inside:  # the bar loop died inside the option market's bookkeeping on a legal history: nothing is reported at all
+                sim.violate(self.oid + ".crash", f"bar_loop:{type(sim.crash).__name__}@{inside[-1]}", msg=str(sim.crash)[:200], where=sim.crash_where)
             else:
                 sim.count("probe:crash_outside_option_market")
 
